@@ -33,6 +33,10 @@ CORPUS = {
         "cfg m=2 c=1 | T0: spawn 1; lock 0; lock 1; cwr 0 1; unlock 0; unlock 1; join 1 | T1: lock 0; lock 1; crd 0; unlock 1; unlock 0",
     ],
     "C09": [
+        # three sends, two of them by one sender: the other sender's message may arrive before, between and after
+        "cfg q=1 | T0: spawn 1; spawn 2; join 1; join 2; recv 0; recv 0; recv 0; droprx 0 | T1: send 0 1; send 0 2 | T2: send 0 10",
+        "cfg q=1 | T0: spawn 1; spawn 2; spawn 3; join 1; join 2; join 3; recv 0; recv 0; recv 0; droprx 0 | T1: send 0 1 | T2: send 0 2 | T3: send 0 3",
+        "cfg q=1 | T0: spawn 1; spawn 2; recv 0; recv 0; recv 0; join 1; join 2; droprx 0 | T1: send 0 1; send 0 2 | T2: send 0 10",
         # every sender is dropped while messages are still queued: try_recv / recv must still deliver them, in order
         "cfg q=1 | T0: send 0 1; send 0 2; droptx 0; tryrecv 0; tryrecv 0; tryrecv 0; droprx 0",
         "cfg q=1 | T0: spawn 1; tryrecv 0; tryrecv 0; join 1; tryrecv 0; droprx 0 | T1: send 0 1; send 0 2; droptx 0",
@@ -52,6 +56,9 @@ CORPUS = {
         "cfg q=1 c=2 | T0: spawn 1; spawn 2; recv 0; ifeq 1 v:1 1; crd 0; ifeq 2 v:2 1; crd 1; recv 0; join 1; join 2; droprx 0 | T1: cwr 0 5; send 0 1 | T2: cwr 1 6; send 0 2",
     ],
     "C04": [
+        # five threads: a cell handed to / from the fifth thread through release/acquire
+        "cfg x=1 c=1 | T0: spawn 1; spawn 2; spawn 3; spawn 4; ld 0 acq; ifeq 1 v:1 1; crd 0; join 1; join 2; join 3; join 4 | T1: fence acq | T2: fence acq | T3: fence acq | T4: cwr 0 5; st 0 1 rel",
+        "cfg m=1 c=1 | T0: spawn 1; spawn 2; spawn 3; spawn 4; lock 0; crd 0; unlock 0; join 1; join 2; join 3; join 4 | T1: fence acq | T2: fence acq | T3: fence acq | T4: lock 0; cwr 0 5; unlock 0",
         "cfg c=1 | T0: spawn 1; cwr 0 1; unpark 1; join 1 | T1: crd 0",
         # the same for the race detector: the second queued message's clock
         "cfg q=1 c=1 | T0: spawn 1; recv 0; recv 0; crd 0; join 1; droprx 0 | T1: send 0 1; cwr 0 5; send 0 2",
@@ -72,6 +79,8 @@ CORPUS = {
         "cfg q=1 c=1 x=1 | T0: spawn 1; spawn 2; ld 0 rlx; ifeq 1 v:1 3; recv 0; ifeq 1 v:1 1; crd 0; join 1; join 2; droprx 0 | T1: send 0 1 | T2: cwr 0 5; send 0 2; st 0 1 rlx",
     ],
     "C10": [
+        # a leak that happens only when the other sender's message arrives BETWEEN the two messages of one sender
+        "cfg q=1 | T0: spawn 1; spawn 2; join 1; join 2; recv 0; recv 0; ifeq 1 v:10 1; tnew 0; recv 0; droprx 0 | T1: send 0 1; send 0 2 | T2: send 0 10",
         # a raw block at a recycled address
         "cfg  | T0: alloc 0; dealloc 0; alloc 1",
         "cfg  | T0: alloc 0; dealloc 0; alloc 1; dealloc 1; alloc 2",
@@ -102,6 +111,9 @@ CORPUS = {
         "cfg x=1 n=1 | T0: spawn 1; nnotify 0; fadd 0 1 rlx; nwait 0; fadd 0 1 rlx; fadd 0 1 rlx; join 1 | T1: fadd 0 1 rlx; fadd 0 1 rlx; fadd 0 1 rlx",
     ],
     "C16": [
+        # a thread that yields while it is alone, then spawns: iteration k must schedule like a fresh first iteration
+        "cfg x=3 | T0: spawn 1; fadd 0 1 rlx; join 1; yield; spawn 2; st 1 1 rlx; fadd 2 1 rlx; join 2 | T1: fadd 0 1 rlx | T2: fadd 2 1 rlx; ld 1 rlx",
+        "cfg x=3 | T0: spawn 1; ld 0 rlx; join 1; yield; spawn 2; st 1 1 rlx; ld 2 rlx; join 2 | T1: st 0 1 rlx | T2: st 2 1 rlx; ld 1 rlx",
         # skip_branch reached in one iteration only: its effect must end with that iteration (the later iterations are
         # explored as if it had never been called)
         "cfg x=2 | T0: spawn 1; ld 0 rlx; ifeq 1 v:0 1; skip; ld 1 rlx; join 1 | T1: st 0 1 rlx; st 1 1 rlx",
@@ -187,6 +199,15 @@ CORPUS = {
         "cfg n=1 | T0: spawn 1; nnotify 0; join 1 | T1: nnotify 0; park",
     ],
     "C03": [
+        # a release fence BEFORE a spawn does not turn the child's relaxed store into a release (RC11: only stores
+        # sequenced after the fence in the same thread): the sibling may acquire-read the child's store and still read the
+        # parent's earlier write stale
+        "cfg x=2 | T0: spawn 1; st 1 1 rlx; fence rel; spawn 2; join 1; join 2 | T1: ld 0 acq; ld 1 rlx | T2: st 0 1 rlx",
+        "cfg x=2 | T0: spawn 1; st 1 1 rlx; fence sc; spawn 2; join 1; join 2 | T1: ld 0 acq; ld 1 rlx | T2: st 0 1 rlx",
+        "cfg x=2 | T0: spawn 1; st 1 1 rlx; fence ar; spawn 2; join 1; join 2 | T1: ld 0 acq; ld 1 rlx | T2: fadd 0 1 rlx",
+        # five threads (the last clock component): message passing from and to the fifth thread
+        "cfg x=2 | T0: spawn 1; spawn 2; spawn 3; spawn 4; ld 1 acq; ld 0 rlx; join 1; join 2; join 3; join 4 | T1: fence acq | T2: fence acq | T3: fence acq | T4: st 0 1 rlx; st 1 1 rel",
+        "cfg x=2 | T0: spawn 1; spawn 2; spawn 3; spawn 4; st 0 1 rlx; st 1 1 rel; join 1; join 2; join 3; join 4 | T1: fence acq | T2: fence acq | T3: fence acq | T4: ld 1 acq; ld 0 rlx",
         # relay through a fence that is both acquire and release: what the fence acquired must be published by a
         # later relaxed store
         "cfg x=3 | T0: spawn 1; spawn 2; ld 2 acq; ifeq 1 v:1 1; ld 0 rlx; join 1; join 2 | T1: st 0 1 rlx; st 1 1 rel | T2: ld 1 rlx; fence ar; ifeq 2 v:1 1; st 2 1 rlx",
